@@ -78,6 +78,25 @@ fn main() {
         println!("{}", jobs::child_main(&job));
         return;
     }
+    if id == "DBG17" {
+        use biodivine_hctl_model_checker::model_checking as mc;
+        let nets = props::common::core_nets(1).unwrap();
+        let b = props::common::by_name(&nets, &args[2]);
+        let fams = sweep::label_families(&b, 4);
+        let ctx = sweep::NetCtx::new(b.clone(), fams[0].1.clone(), "mixed");
+        let mut sets = std::collections::HashMap::new();
+        sets.insert("p".to_string(), ctx.sets["p"].clone());
+        sets.insert("d".to_string(), ctx.sets["d"].clone());
+        sets.insert("dom_1".to_string(), ctx.sets["e"].clone());
+        let fs = vec!["3{x} in %dom_1%: @{x}: EG %p%", "%p%", "V{x} in %d%: @{x}: AX {x}"];
+        let batch = mc::model_check_multiple_extended_formulae_dirty(fs.clone(), &b.graph, &sets).unwrap();
+        for (i, f) in fs.iter().enumerate() {
+            let solo = mc::model_check_extended_formula_dirty(f, &b.graph, &sets).unwrap();
+            println!("{f}: equal={} solo masks {:?} batch masks {:?} solo⊆unit {} batch⊆unit {} batch extras {} solo extras {}", solo.as_bdd() == batch[i].as_bdd(), b.masks_of(&solo), b.masks_of(&batch[i]), !b.outside_unit(&solo), !b.outside_unit(&batch[i]), b.depends_on_extras(&batch[i]), b.depends_on_extras(&solo));
+        }
+        println!("labels: p={:?} d={:?} dom_1={:?}", fams[0].1.wild[0], fams[0].1.dom[0], fams[0].1.dom[1]);
+        return;
+    }
     if id == "LOADTEST" {
         let n: usize = args[2].parse().unwrap();
         let name = |i: usize| format!("x{i:02}");
@@ -158,6 +177,10 @@ fn main() {
     let tier = args[2].as_str();
     if tier != "quick" && tier != "thorough" {
         eprintln!("tier must be quick or thorough");
+        std::process::exit(2);
+    }
+    if (id == "C17" || id == "C19") && std::env::var("VERIF_VIA_CHECK").is_err() {
+        eprintln!("MACHINERY: {id} drives the repository's binaries, which only ./check rebuilds from the working tree; run ./check {id} {tier}");
         std::process::exit(2);
     }
     let rep = match id.as_str() {
